@@ -561,6 +561,14 @@ M('twin-mangler-extension-limit-as-statement', 'twin', ['C18', 'C20'], [],
   [(UT, "        maxextlen = 3 if iso_level == 1 else 30\n", "        maxextlen = 30\n        if iso_level == 1:\n            maxextlen = 3\n")])
 
 
+RESOLVE_EFI = "        if efi is not None:\n            if not efi and mac:\n                raise pycdlibexception.PyCdlibInvalidInput('If mac is True, efi must also be True')\n        else:\n            efi = False\n            if mac:\n                efi = True\n\n"
+SLOT_CHECK = "        if (efi and part_entry == 2) or (mac and part_entry == 3):\n            raise pycdlibexception.PyCdlibInvalidInput('Partition entry 2 is used by the EFI partition and 3 by the Mac partition')\n"
+M('slot-check-before-efi-default-is-resolved', 'fault', ['C12', 'C13'], ['SA-DEFAULT.resolve.pycdlib'],
+  [(PY, RESOLVE_EFI, SLOT_CHECK + "\n" + RESOLVE_EFI), (PY, "            raise pycdlibexception.PyCdlibInvalidInput('The partition entry must be between 1 and 4, inclusive')\n" + SLOT_CHECK, "            raise pycdlibexception.PyCdlibInvalidInput('The partition entry must be between 1 and 4, inclusive')\n")], 'before `efi is not None`')
+M('twin-given-test-before-efi-default-is-resolved', 'twin', ['C12', 'C13'], [],
+  [(PY, RESOLVE_EFI, "        efi_given = efi is not None\n" + RESOLVE_EFI)])
+
+
 def applicable(m, sources):
     for rel, old, new in m['edits']:
         src = sources.get(rel)
